@@ -51,7 +51,58 @@ struct PolU2 {
 	void unpoison_expand(void *p, size_t n) { slabh_poison(2, p, n); }
 };
 
+struct PolA3 { // slab size that is not a power of two; classes up to 8192
+	static constexpr size_t pagesize = 0x1000, slabsize = 0x7000, sb_size = 0x8000; static constexpr int num_buckets = 11;
+	uintptr_t map(size_t len, size_t align) { return slabh_map(len, align); }
+	void unmap(uintptr_t b, size_t l) { slabh_unmap(b, l); }
+	void poison(void *p, size_t n) { slabh_poison(0, p, n); }
+	void unpoison(void *p, size_t n) { slabh_poison(1, p, n); }
+	void unpoison_expand(void *p, size_t n) { slabh_poison(2, p, n); }
+};
+struct PolU3 {
+	static constexpr size_t pagesize = 0x1000, slabsize = 0x7000, sb_size = 0x8000; static constexpr int num_buckets = 11;
+	uintptr_t map(size_t len) { return slabh_map(len, 0); }
+	void unmap(uintptr_t b, size_t l) { slabh_unmap(b, l); }
+};
+
+// generic parametrised policies (non-default geometry); POISON adds the poison hooks
+template <size_t PAGE, size_t SLAB, size_t SB, int NB>
+struct PolAlignedPoison {
+	static constexpr size_t pagesize = PAGE, slabsize = SLAB, sb_size = SB; static constexpr int num_buckets = NB;
+	uintptr_t map(size_t len, size_t align) { return slabh_map(len, align); }
+	void unmap(uintptr_t b, size_t l) { slabh_unmap(b, l); }
+	void poison(void *p, size_t n) { slabh_poison(0, p, n); }
+	void unpoison(void *p, size_t n) { slabh_poison(1, p, n); }
+	void unpoison_expand(void *p, size_t n) { slabh_poison(2, p, n); }
+};
+template <size_t PAGE, size_t SLAB, size_t SB, int NB>
+struct PolAligned {
+	static constexpr size_t pagesize = PAGE, slabsize = SLAB, sb_size = SB; static constexpr int num_buckets = NB;
+	uintptr_t map(size_t len, size_t align) { return slabh_map(len, align); }
+	void unmap(uintptr_t b, size_t l) { slabh_unmap(b, l); }
+};
+template <size_t PAGE, size_t SLAB, size_t SB, int NB>
+struct PolUnaligned {
+	static constexpr size_t pagesize = PAGE, slabsize = SLAB, sb_size = SB; static constexpr int num_buckets = NB;
+	uintptr_t map(size_t len) { return slabh_map(len, 0); }
+	void unmap(uintptr_t b, size_t l) { slabh_unmap(b, l); }
+};
+template <size_t PAGE, size_t SLAB, size_t SB, int NB>
+struct PolUnalignedPoison {
+	static constexpr size_t pagesize = PAGE, slabsize = SLAB, sb_size = SB; static constexpr int num_buckets = NB;
+	uintptr_t map(size_t len) { return slabh_map(len, 0); }
+	void unmap(uintptr_t b, size_t l) { slabh_unmap(b, l); }
+	void poison(void *p, size_t n) { slabh_poison(0, p, n); }
+	void unpoison(void *p, size_t n) { slabh_poison(1, p, n); }
+	void unpoison_expand(void *p, size_t n) { slabh_poison(2, p, n); }
+};
+using PolA4 = PolAlignedPoison<0x4000, 0x4000, 0x4000, 8>;
+using PolU4 = PolUnaligned<0x2000, 0x2000, 0x2000, 6>;
+using PolA5 = PolAligned<0x1000, 0x1000, 0x1000, 5>;
+using PolU5 = PolUnalignedPoison<0x1000, 0x3000, 0x10000, 9>;
+
 namespace {
+PolA3 pa3; PolU3 pu3; PolA4 pa4; PolU4 pu4; PolA5 pa5; PolU5 pu5;
 PolA0 pa0; PolA1 pa1; PolA2 pa2; PolU0 pu0; PolU1 pu1; PolU2 pu2;
 
 #define DISPATCH(pc, EXPR) \
@@ -61,6 +112,12 @@ PolA0 pa0; PolA1 pa1; PolA2 pa2; PolU0 pu0; PolU1 pu1; PolU2 pu2;
 	case PC_A2: { using P = PolA2; auto &plc = pa2; (void)plc; EXPR; break; } \
 	case PC_U0: { using P = PolU0; auto &plc = pu0; (void)plc; EXPR; break; } \
 	case PC_U1: { using P = PolU1; auto &plc = pu1; (void)plc; EXPR; break; } \
+	case PC_A3: { using P = PolA3; auto &plc = pa3; (void)plc; EXPR; break; } \
+	case PC_U3: { using P = PolU3; auto &plc = pu3; (void)plc; EXPR; break; } \
+	case PC_A4: { using P = PolA4; auto &plc = pa4; (void)plc; EXPR; break; } \
+	case PC_U4: { using P = PolU4; auto &plc = pu4; (void)plc; EXPR; break; } \
+	case PC_A5: { using P = PolA5; auto &plc = pa5; (void)plc; EXPR; break; } \
+	case PC_U5: { using P = PolU5; auto &plc = pu5; (void)plc; EXPR; break; } \
 	default: { using P = PolU2; auto &plc = pu2; (void)plc; EXPR; break; } }
 
 template <class P> using Pool = frg::slab_pool<P, MUTEX>;
